@@ -11,5 +11,7 @@ GNext ==
   \/ \E s \in Svcs, d \in Dirs : Failed(s, d) /\ H([a |-> "Failed", s |-> s, d |-> d])
   \/ \E s \in Svcs, d \in Dirs : FetchFailed(s, d) /\ H([a |-> "FetchFailed", s |-> s, d |-> d])
   \/ \E s \in Svcs, d \in Dirs, k \in {"CREATED", "RECEIVED"} : Notice(s, d, k) /\ H([a |-> "Notice", s |-> s, d |-> d, k |-> k])
+  \/ \E s \in Svcs, d \in Dirs : FailedAgain(s, d) /\ H([a |-> "FailedAgain", s |-> s, d |-> d])
+  \/ \E s \in Svcs, d \in Dirs : UploadedAgain(s, d) /\ H([a |-> "UploadedAgain", s |-> s, d |-> d])
 GSpec == GInit /\ [][GNext]_<<vars, hist>>
 ====
